@@ -1,6 +1,7 @@
 #!/bin/sh
 # ./thorough_all.sh <ids...>: run thorough checks on a clean scratch worktree (VERIF_REPO), log wall time and verdict
 cd /verif
+# needs a clean scratch worktree of /repo HEAD: git -C /repo worktree add --detach ${CLEAN:-/tmp/wt/clean} HEAD
 for id in "$@"; do
   t0=$(date +%s)
   VERIF_REPO=${CLEAN:-/tmp/wt/clean} timeout 9000 ./check $id thorough > out/thorough.$id.log 2>&1
